@@ -1,6 +1,7 @@
 (* Model of the structural predicates of isla/isla_predicates.py (as of the
-   current /repo tree, i.e. including the two `fix:` commits for is_after and
-   consecutive).  No proofs here. *)
+   current /repo tree, i.e. including the `fix:` commit for is_after; `consecutive`
+   is modelled WITH its defect: leaf paths relative to the common prefix are compared
+   with absolute paths -- class K_cons_rel, see PredsFacts.v).  No proofs here. *)
 From ISLA Require Export Outcome Tree.
 
 (* ---- Python helpers on tuples ---- *)
@@ -83,7 +84,9 @@ Fixpoint lcp (p q : path) : path :=
   | _, _ => []
   end.
 
-Definition consecutive (t : tree) (p1 p2 : path) : res bool :=
+(* `rel = false`: the code as it is (leaf paths stay relative to the common prefix);
+   `rel = true`: the repaired form (leaf paths made absolute), kept for the theorems *)
+Definition consecutive_gen (absolute : bool) (t : tree) (p1 p2 : path) : res bool :=
   if path_eqb p1 p2 || negb (is_before p1 p2) then Ok false else
   let c := lcp p1 p2 in
   match py_get_subtree t c with
@@ -91,11 +94,17 @@ Definition consecutive (t : tree) (p1 p2 : path) : res bool :=
   | Ok None => Raise AttrErr
   | Ok (Some s) =>
       Ok (negb (existsb
-                  (fun pt => let q := c ++ fst pt in
+                  (fun pt => let q := (if absolute then c else []) ++ fst pt in
                              negb (path_eqb q p1) && negb (path_eqb q p2)
                              && is_before p1 q && is_before q p2)
                   (py_leaves s)))
   end.
+
+Definition consecutive := consecutive_gen false.
+Definition consecutive_fixed := consecutive_gen true.
+
+(* class of the recorded defect: the two paths share a non-empty common prefix *)
+Definition K_cons_rel (p1 p2 : path) : bool := match lcp p1 p2 with [] => false | _ => true end.
 
 Inductive lvl_op := EQ | GE | LE | GT | LT.
 
